@@ -30,7 +30,7 @@ from .web_exceptions import (
     HTTPPreconditionFailed,
     HTTPRequestRangeNotSatisfiable,
 )
-from .web_response import StreamResponse
+from .web_response import ContentCoding, StreamResponse
 
 __all__ = ("FileResponse",)
 
@@ -331,6 +331,16 @@ class FileResponse(StreamResponse):
             # garbage collected before it completes.
             _CLOSE_FUTURES.add(close_future)
             close_future.add_done_callback(_CLOSE_FUTURES.remove)
+
+    async def _do_start_compression(self, coding: ContentCoding) -> None:
+        await super()._do_start_compression(coding)
+        if coding is not ContentCoding.identity:
+            # What is coded on the fly is not the stored file: it has no byte
+            # ranges and must not share the file's strong validator, or
+            # If-Range would resume it with bytes of the file.
+            self._headers.popall(hdrs.ACCEPT_RANGES, None)
+            if (etag := self.etag) is not None:
+                self.etag = ETag(value=etag.value, is_weak=True)
 
     async def _prepare_open_file(
         self,
